@@ -218,6 +218,27 @@ CHECKS["C19"] = dict(
     technique="TLA+ model of A* checked by TLC against Bellman-Ford; TLC-enumerated networks built and queried on the real code; "
               "recorded routes validated by TLC (trace validation)")
 
+CHECKS["C06"] = dict(
+    level="exploration",
+    text="TextCodecs.tla contains the RFC 7946 geometry-object grammar as a recursive-descent recogniser over tokens that returns the "
+         "parsed geometry (members type/coordinates in either order, array nesting fixed by the type, positions [x, y]); TLC checks "
+         "the recogniser against its own renderer (parse(render(g)) = g, any single token removed is rejected). The real encoder's "
+         "text is lexed by a hand-written lexer with exact decimal->binary rounding (math/big), and TextTrace.tla requires the "
+         "tokens to parse to exactly g, Decode(Encode(g)) = g bit for bit, and errors for unsupported types and non-finite values.",
+    design_ref="DESIGN.md section 5, C06 / C17",
+    note="Trusted: TLC, the harness lexer and its big.Rat decimal conversion. Exhaustive for member counts 1-3 over ten adversarial "
+         "finite values; random geometries with random finite bit patterns.",
+    technique="TLA+ token grammar / parser evaluated by TLC on the lexed output of the real encoder for TLC-enumerated and random "
+              "geometries (trace validation)")
+CHECKS["C17"] = dict(
+    level="exploration",
+    text="Same TextCodecs family: the OGC WKT grammar (keyword and parenthesis nesting per type, 'x y' positions, comma-separated "
+         "members) as a recogniser returning the parsed geometry; the real wkt.Encode output is lexed and must parse to exactly g "
+         "(same type, nesting and float64 bit patterns); unsupported types must be errors.",
+    design_ref="DESIGN.md section 5, C06 / C17",
+    note="Trusted: as C06.",
+    technique="TLA+ WKT grammar / parser evaluated by TLC on the lexed output of the real encoder (trace validation)")
+
 NOT_YET = "check not built yet in this round of work; will be claimed when its specification, replay and trace validation exist"
 NA = {
     "C09": "oracle is proj4js 2.3.12 and closed-form geodesy (real-valued transcendental functions, a JavaScript program that "
